@@ -80,6 +80,7 @@ type pathState struct {
 	known    string
 	forced   []int
 	permuteMaps bool
+	stubTimeFormat bool
 	lits     map[int]bool // term id -> asserted polarity (syntactic shortcut)
 }
 
@@ -405,10 +406,35 @@ func (i *interpreter) proves(c *Term) bool {
 }
 
 // chooseInternal forks over 0..n-1 (not an input of the harness: not replayed).
-func (i *interpreter) chooseInternal(n int) int {
-	s := i.freshVar(types.Int, "m")
-	i.assume(vAnd(symBinop("bvsle", int(0), s), symBinop("bvslt", s, int(n))))
-	return i.concretize(s).(int)
+func (i *interpreter) chooseInternal(n int) int { return i.forkN(n) }
+
+// forkN forks the path n ways without consulting the solver (every
+// alternative of a fresh selector is feasible by construction).
+func (i *interpreter) forkN(n int) int {
+	if n <= 1 {
+		return 0
+	}
+	ps := i.ps()
+	pos := len(ps.trail)
+	if pos < len(ps.prefix) {
+		d := ps.prefix[pos]
+		if d.Kind != 'n' {
+			panic(engineError{fmt.Sprintf("replay divergence at decision %d: want selector, prefix has %c at %s", pos, d.Kind, i.where())})
+		}
+		ps.trail = append(ps.trail, d)
+		if len(ps.trail) == len(ps.prefix) {
+			ps.model = ps.jobModel
+		}
+		return int(d.Val)
+	}
+	ps.tooDeep(i)
+	ps.symDecs++
+	for k := n - 1; k >= 1; k-- {
+		alt := append(append([]dec{}, ps.trail...), dec{Kind: 'n', Val: uint64(k)})
+		ps.newJobs = append(ps.newJobs, job{alt, ps.model})
+	}
+	ps.trail = append(ps.trail, dec{Kind: 'n', Val: 0})
+	return 0
 }
 
 // freshVar creates a new symbolic scalar of kind k.
